@@ -89,19 +89,25 @@ def iter_ptrs(t):
             yield from iter_ptrs(c)
 
 
-def dump_type(t, comp_of):
+def dump_type(t, comp_of, dedupe=False):
     """structural dump of an IR type; model pointers are rendered by the component of the pointed model so that
     the (legitimate) retargeting of pointers to merged models is invisible"""
     if isinstance(t, ModelPtr):
         return ("ptr", comp_of(t.type))
     if isinstance(t, DOptional):
-        return ("opt", dump_type(t.type, comp_of))
+        return ("opt", dump_type(t.type, comp_of, dedupe))
     if isinstance(t, DUnion):
-        return ("union", tuple(sorted((dump_type(x, comp_of) for x in t.types), key=repr)))
+        ms = [dump_type(x, comp_of, dedupe) for x in t.types]
+        if dedupe:
+            # pointers to models of one merge component become one member once the component is merged
+            ms = list({repr(m): m for m in ms}.values())
+            if len(ms) == 1:
+                return ms[0]
+        return ("union", tuple(sorted(ms, key=repr)))
     if isinstance(t, DList):
-        return ("list", dump_type(t.type, comp_of))
+        return ("list", dump_type(t.type, comp_of, dedupe))
     if isinstance(t, DDict):
-        return ("dict", dump_type(t.type, comp_of))
+        return ("dict", dump_type(t.type, comp_of, dedupe))
     if isinstance(t, StringLiteral):
         return ("lit", tuple(sorted(t.literals)), t.overflowed)
     if t is Null:
@@ -111,7 +117,7 @@ def dump_type(t, comp_of):
     if isinstance(t, type):
         return t.__name__
     if isinstance(t, dict):
-        return ("fields", tuple((k, dump_type(v, comp_of)) for k, v in t.items()))
+        return ("fields", tuple((k, dump_type(v, comp_of, dedupe)) for k, v in t.items()))
     return repr(t)
 
 
@@ -155,7 +161,7 @@ class MergeMonitor:
         for c in expected:
             for i in c:
                 comp_by_index[i] = c
-        dumps = {m.index: dump_type(m.type, lambda mm: comp_by_index.get(mm.index, mm.index)) for m in models}
+        dumps = {m.index: dump_type(m.type, lambda mm: comp_by_index.get(mm.index, mm.index), dedupe=True) for m in models}
         # clique test on the relation for non-triviality accounting
         def is_clique(c):
             c = list(c)
@@ -223,7 +229,7 @@ class MergeMonitor:
             if now.get(ix) is not m:
                 V.append(("untouched-model-replaced", f"model {ix} is not in any merge group but is no longer the registered object"))
                 continue
-            d = dump_type(m.type, comp_of)
+            d = dump_type(m.type, comp_of, dedupe=True)
             if d != snap["dumps"][ix]:
                 V.append(("untouched-model-changed", f"model {ix} is in no merge group but changed: before {snap['dumps'][ix]!r:.300} "
                                                      f"after {d!r:.300}"))
